@@ -814,3 +814,21 @@ pub fn helper_used_as_value_panics(s: &[usize]) -> Vec<u8> {
     v.push(direct);
     v
 }
+
+pub fn closure_mut_capture_panics(a: &[u8; 4], s: &[u8]) -> u8 {
+    let mut k = 0usize;
+    s.iter().for_each(|_| {
+        k += 1;
+    });
+    a[k]
+}
+
+pub fn closure_inner_mut_capture_panics(a: &[u8; 4], s: &[u8]) -> u8 {
+    let mut k = 0usize;
+    let mut acc = 0u8;
+    s.iter().for_each(|_| {
+        acc ^= a[k];
+        k += 1;
+    });
+    acc
+}
